@@ -41,7 +41,7 @@ PIPE = "semantiva/pipeline/pipeline.py"
 
 def alpha_normal_form(fn: ast.FunctionDef, type_aliases: Dict[str, str]) -> str:
     """Position-free dump of *fn*'s body with its own name and parameters renamed canonically."""
-    fn = copy.deepcopy(fn)
+    fn = ast.parse(ast.unparse(fn)).body[0]  # detached copy (no parent links)
     ren = {fn.name: "F"}
     for i, a in enumerate(fn.args.args):
         ren[a.arg] = f"p{i}"
